@@ -209,21 +209,25 @@ PROPS['C09'] = Prop(
 )
 
 PROPS['C10'] = Prop(
-    functions=['policy:Enforcer.set_rules', '_cache_handler:read_cached_file', '_cache_handler:delete_cached_file'],
+    functions=['policy:Enforcer.set_rules', '_cache_handler:read_cached_file', '_cache_handler:delete_cached_file',
+               'policy:Enforcer._is_directory_updated'],
     bounded=[('bounded.loader', 'c10')],
     level='other',
-    technique='bounded stand-in: exhaustive short and random long file-operation histories on real files with a controlled clock; set_rules proved deductively',
+    technique='contract-based deductive verification (own VC generator + z3) of the file cache, the directory change detector and set_rules; their composition in load_rules is decided by a labelled bounded stand-in (exhaustive short and random long file-operation histories on real files with a controlled clock)',
     explanation='BOUNDED: all histories of length <= 3 (quick) / 4 (thorough) over {write, empty, delete} x {main file, '
                 'directory file} + load, and random histories up to 14 steps over all operations and four files, plain and '
                 'deprecated defaults, starting with and without a main file; after every load/enforce the long-lived rule '
                 'store is compared with a fresh enforcer. PROVED: read_cached_file re-reads exactly when forced, uncached '
                 'or the file is strictly newer than the cached mtime, otherwise serves the cached text unchanged; a '
                 'missing file is reported as reloaded with an empty mapping; only EACCES is turned into '
-                'ConfigFilesPermissionDeniedError; delete_cached_file removes exactly one entry; set_rules as specified. '
+                'ConfigFilesPermissionDeniedError; delete_cached_file removes exactly one entry; _is_directory_updated reports a '
+                'directory as updated exactly when its own modification time or that of one of its entries is newer than the '
+                'stamp kept for it, and the stamp kept afterwards dominates all of them (so deletions, creations and rewrites '
+                'are all noticed once); set_rules as specified. '
                 'The composition of these helpers in load_rules is not proved.',
     assumptions=['every change advances modification times of the file and of its directory (the property\'s own assumption)',
                  'removing a whole policy directory after it was loaded is outside the statement',
-                 'ghost file system (fs_exists, fs_mtime, fs_content, fs_eacces) constant during one call: the race "file vanishes between getmtime and open" is not modelled'],
+                 'ghost file system (fs_exists, fs_mtime, fs_content, fs_eacces, fs_isdir, fs_listdir) constant during one call: the race "file vanishes between getmtime and open" is not modelled; a dangling symbolic link in a policy directory (listed but not existing) is not modelled'],
 )
 
 PROPS['C11'] = Prop(
@@ -308,25 +312,31 @@ PROPS['C16'] = Prop(
 )
 
 PROPS['C17'] = Prop(
-    functions=[],
+    functions=['generator:_format_rule_line', 'generator:_format_rule_default_json'],
     bounded=[('bounded.tools', 'c17')],
     level='other',
-    technique='bounded stand-in (string-level contracts of the generator are not built in this revision)',
-    explanation='BOUNDED: random default lists with hostile descriptions and reasons; the YAML sample must load as an empty '
-                'mapping, its uncommented rule lines as exactly the defaults, the JSON sample as that mapping. Nothing is '
-                'proved for C17 in this revision.',
-    assumptions=['bounded only', 'operation method/path, scope types and deprecated_since are single-line strings'],
+    technique='contract-based deductive verification (own VC generator + z3) of the one function that turns a policy name and check string into file text; the comment layout around it (help text wrapping, deprecation blocks, section loop) is decided by a labelled bounded stand-in',
+    explanation='PROVED for all inputs: _format_rule_line returns exactly jdumps(name) + ": " + jdumps(check_str), i.e. both '
+                'halves go through the JSON serialiser (never interpolated as text) and nothing else is added; the JSON '
+                'sample entry of a default is that line for its name and check_str. BOUNDED: random default lists with '
+                'hostile descriptions and reasons; the YAML sample must load as an empty mapping, its uncommented rule '
+                'lines as exactly the defaults, the JSON sample as that mapping, with and without exclude_deprecated.',
+    assumptions=['jsonutils.dumps (trusted stub): returns one line of JSON for a string or list-of-lists value; that a JSON '
+                 'string/array is read back by a YAML loader as the same value is checked by the stand-in only',
+                 'operation method/path, scope types and deprecated_since are single-line strings'],
 )
 
 PROPS['C18'] = Prop(
-    functions=[],
+    functions=['generator:_format_rule_line'],
     bounded=[('bounded.tools', 'c18')],
     level='other',
-    technique='bounded stand-in (map-level contracts of the tools are not built in this revision)',
-    explanation='BOUNDED: random policy files against plain/renamed/split/changed default sets through policy-upgrade (yaml '
-                'and json), convert-json-to-yaml, policy-generator and list-redundant; enforcer decisions before and after '
-                'for every surviving name and role subset. Nothing is proved for C18 in this revision.',
-    assumptions=['bounded only', 'files defining both a deprecated name and one of its successors are excluded'],
+    technique='contract-based deductive verification (own VC generator + z3) of the rule-line emitter shared by the converter and the generator; the map-level behaviour of the tools (upgrade, convert, list-redundant) is decided by a labelled bounded stand-in',
+    explanation='PROVED for all inputs: _format_rule_line returns exactly jdumps(name) + ": " + jdumps(check_str). BOUNDED: '
+                'random policy files (string and list-of-lists values, values longer than any folding width) against '
+                'plain/renamed/split/changed default sets through policy-upgrade (yaml and json), convert-json-to-yaml, '
+                'policy-generator and list-redundant; enforcer decisions before and after for every surviving name and '
+                'role subset.',
+    assumptions=['jsonutils.dumps (trusted stub) as for C17', 'files defining both a deprecated name and one of its successors are excluded'],
 )
 
 PROPS['C19'] = Prop(
